@@ -871,7 +871,8 @@ class C20(PropBase):
             if gone and lib in (("O", "P") if prim in ("D", "DB") else ("O",)):
                 # the reader went away: a silent status 0 is the documented behaviour (main.rs: broken pipe ignored);
                 # whatever did get through must be the beginning of the right report
-                if isinstance(primary, tuple) and primary[0] and not ({prim, prim + "<"} & primary[2]) and not ldi_unpredictable:
+                ok_names = acceptable(c, prim) | {w + "<" for w in acceptable(c, prim)}
+                if isinstance(primary, tuple) and primary[0] and not (ok_names & primary[2]) and not ldi_unpredictable:
                     return "%s received %d bytes that are not a prefix of the library's %s rendering" % (pname, primary[0], prim)
                 return None
             need = ("O", "P") if prim in ("D", "DB") else ("O",)
@@ -998,7 +999,7 @@ class C20(PropBase):
         col = "RPO".index(a["lib"])
         if info == "3":
             col = 0
-            a = dict(a, lib="R", logc="-" if a.get("logc") in ("L", "L+") else a.get("logc", "-"),
+            a = dict(a, lib="R", logc="-" if a.get("logc") in ("L", "L+", "1") else a.get("logc", "-"),
                      errc="-" if a.get("errc") in ("L", "L+", "1") else a.get("errc", "-"))
         pred = cols[col].split(";")
         return self.compare(c, a, pred, names=(info != "2"))
